@@ -224,6 +224,40 @@ Theorem C12_pinger_kept :
   forall ls s, pexec false pinit ls = Some s -> pstep false s PPing <> None.
 Proof. exact pinger_kept. Qed.
 
+(** The deadline of a call: Request wraps the caller's context in
+    context.WithTimeout(ctx, c.timeout), so the client timeout bounds every call
+    whatever deadline the caller's context carries; the caller's earlier deadline
+    is respected too.  "Apply the client timeout only when the caller has no
+    deadline" is refuted (Proofs/ClientHistory.v). *)
+Theorem C12_effective_deadline_bounds :
+  forall timeout caller,
+    effective_deadline timeout caller <= timeout /\
+    (forall c, caller = Some c -> effective_deadline timeout caller <= c) /\
+    (effective_deadline timeout caller = timeout \/ caller = Some (effective_deadline timeout caller)).
+Proof. exact effective_deadline_bounds. Qed.
+
+Theorem C12_caller_deadline_only_refuted :
+  forall timeout, exists caller, timeout < caller_deadline_only timeout caller.
+Proof. exact caller_deadline_only_refuted. Qed.
+
+(** Connections with an auth key: the channel on which the reader reports the end of
+    the authentication is made once and used by the first connect and by every
+    reconnect.  Never closed, it serves any number of authentications and each one
+    re-establishes the connection; closed after the first one, the second
+    authentication panics (send on closed channel). *)
+Theorem C12_auth_chan_open_never_panics :
+  forall ls s, aexec false ainit ls = Some s -> aout_ s = ARunning /\ aclosed s = false.
+Proof. exact auth_chan_open_never_panics. Qed.
+
+Theorem C12_auth_chan_open_reconnects :
+  forall ls s, aexec false ainit ls = Some s -> aconnected s = false -> awaiting s = false ->
+    exists s', aexec false s [ASetup; ANonce] = Some s' /\ aconnected s' = true /\ aout_ s' = ARunning.
+Proof. exact auth_chan_open_reconnects. Qed.
+
+Theorem C12_auth_chan_closed_refuted :
+  exists s, aexec true ainit [ASetup; ANonce; ADrop; ASetup; ANonce] = Some s /\ aout_ s = APanic.
+Proof. exact auth_chan_closed_refuted. Qed.
+
 (** PARTIAL (liveness): after a drop the path ping failure -> reconnect -> done is
     enabled and re-establishes the connection; that it is taken within a bounded
     time is a fairness / wall-clock fact, not proved. *)
